@@ -137,6 +137,16 @@ def run_halfclose(o, ctx):
         got = p[1].split("/") if len(p) >= 2 and p[0] == "V" else None
         if got != w and len(o.violations) < 30:
             o.violations.append({"case": c, "impl": a[:300], "expected": "/".join(w), "why": "request sent together with the client's half-close: transcript %s, specification %s" % (a[:80], "/".join(w)[:80])})
+    # a handler error of ANY kind ends the connection, in epoll mode as in the others (nothing further is read)
+    kinds = ["wouldblock", "interrupted", "timedout", "brokenpipe", "reset", "other", "eof", "invaliddata", "aborted"]
+    klines = ["SERVE mode=%s threads=2 plan=P:s:%s,r,s:%s,r,e/S:e" % (m, hx(b"GET /errkind/%s HTTP/1.1\r\n\r\n" % k.encode()), hx(p1)) for k in kinds for m in ("epoll", "threaded")]
+    for c, a in zip(klines, C.run_sharded(ctx["kimpl"], klines, shards=min(C.NCPU, len(klines)))):
+        o.evaluations += 1
+        pz = a.split()
+        got = pz[1].split("/")[0] if len(pz) >= 2 and pz[0] == "V" else None
+        if got != "EOF,EOF,EOF" and len(o.violations) < 30:
+            o.violations.append({"case": c, "impl": a[:300], "expected": "EOF,EOF,EOF",
+                                 "why": "a handler error did not end the connection: transcript %s (no response and end of connection expected; the request sent afterwards must not be answered)" % (got or a[:60])})
     # the second request and the FIN arrive while the first request's (slow) handler is still running
     slow = b"GET /slow/25 HTTP/1.1\r\n\r\n"
     elines = ["EPOLL w=%d failadd=- plan=o0,s0:%s,y0,s0:%s,h0,r0,r0,r0,z" % (w, hx(slow), hx(p1)) for w in (1, 2, 2)]
@@ -388,6 +398,13 @@ def c05_cases(seed, tier):
                     script = first + "".join(",s:%s" % hx(p_) for p_ in pieces[1:] if p_) + ",r,s:%s,r" % hx(probe)
                     exp2 = [("R200:0:" + hx(ans)) if ans is not None else "R404:0:e", "R200:0:" + hx(b"1,2")]
                     out.append(("CONN max=4096 script=" + script, exp2, fr[0] + "-unread", fields))
+                # … and when a pre-routing hook answers in the handler's place (Drop): the body the framing denotes is still skipped
+                if fr[0] in ("chunked", "fixed") and len(body) >= 2 and (tier != "quick" or r.random() < 0.5):
+                    head3 = head.replace(b"\r\n", b"\r\nx-hook: drop\r\n", 1)
+                    cut = r.randrange(0, len(body))
+                    first = "s:%s" % hx(head3 + body[:cut]) if cut and r.random() < 0.5 else ("s:%s" % hx(head3) + (",s:%s" % hx(body[:cut]) if cut else ""))
+                    script = first + ",r,s:%s,s:%s,r" % (hx(body[cut:]), hx(probe))
+                    out.append(("CONN max=4096 script=" + script, ["R405:0:e", "R200:0:" + hx(b"1,2")], fr[0] + "-hookdrop", fields))
     return out
 
 
